@@ -70,8 +70,15 @@ def make(cls, max_iter, seed, variant):
         lam = [0.05, 0.05, 1e3][variant % 3]
         sigma = [1.0, 0.01, 1.0][variant % 3]
         tau = 1 / (sigma * L)
-        a = alg.PrimalDualHybridGradient(prox.L2Reg([n], 1, y=-y), prox.L1Reg([n], lam), lambda v: A @ v, lambda v: A.conj().T @ v,
-                                         x, u, tau, sigma, max_iter=max_iter, tol=0)
+        theta = [1, 1, 1, 0, 0.5, 0][variant % 6]       # user-supplied extrapolation factor (Arrow-Hurwicz for 0)
+        if (variant // 6) % 2 == 0:
+            # data term through the dual, sparsity through the primal prox
+            a = alg.PrimalDualHybridGradient(prox.L2Reg([n], 1, y=-y), prox.L1Reg([n], lam), lambda v: A @ v, lambda v: A.conj().T @ v,
+                                             x, u, tau, sigma, theta=theta, max_iter=max_iter, tol=0)
+        else:
+            # min 1/2 |x - y|^2 + lam |A x|_1: the dual prox clips (from a zero start the dual does not move while the primal does)
+            a = alg.PrimalDualHybridGradient(prox.Conj(prox.L1Reg([n], [5.0, 0.05][variant % 2])), prox.L2Reg([n], 1, y=y), lambda v: A @ v, lambda v: A.conj().T @ v,
+                                             x, u, tau, sigma, theta=theta, max_iter=max_iter, tol=0)
         return a, lambda: [a.x, a.u], False
     if cls == "AltMin":
         x = np.zeros(n, dtype=dt)
